@@ -66,9 +66,39 @@ def oracle_stack(args):
     from mudslide.even_sampling import SpawnStack
     ns, method = [int(v) for v in args["nsamples"]], args["method"]
     sizes = list(ns)                       # ONE list object handed to the builder twice, as BatchedTraj does with its option
-    ss = SpawnStack.from_quadrature(sizes, method=method)
-    ss_again = SpawnStack.from_quadrature(sizes, method=method)
-    pw = ss.unravel()
+    if args.get("via_batch"):
+        # the stack a trajectory of a BATCH carries when the sizes and the rule are given as options of the batch driver
+        import mudslide
+        captured = []
+
+        class Cap(mudslide.EvenSamplingTrajectory):
+            def __init__(self, *a, **kw):
+                mudslide.EvenSamplingTrajectory.__init__(self, *a, **kw)
+                captured.append(self.spawn_stack)
+        model = mudslide.models.scattering_models["simple"]()
+        b = mudslide.BatchedTraj(model, mudslide.TrajGenConst(-5.0, 10.0, 0, seed=3), Cap, samples=1, spawn_stack=sizes, quadrature=method,
+                                 dt=20.0, max_steps=1, bounds=[-6, 6])
+        b.compute()
+        ss = captured[0]
+        ss_again = SpawnStack.from_quadrature(sizes, method=method)
+    else:
+        ss = SpawnStack.from_quadrature(sizes, method=method)
+        ss_again = SpawnStack.from_quadrature(sizes, method=method)
+    from ..core import time_limit
+    try:
+        with time_limit(20):
+            if args.get("append"):
+                # one more layer appended to every leaf afterwards (SpawnStack.append_layer): the result is the tensor product with
+                # that layer, whatever the depth of the stack it is appended to
+                ka = int(args["append"])
+                xa, wa = _quad(ka, 0.0, 1.0, method)
+                ss.append_layer([float(v) for v in xa], [float(v) for v in wa])
+                ns = ns + [ka]
+            pw = ss.unravel()
+    except (TimeoutError, RecursionError, MemoryError) as e:
+        return False, {"npoints": -1, "problems": ["%s: %s" % (type(e).__name__, e)]}, {"total": 1.0}, \
+            "from_quadrature(%r,%s)%s: flattening the stack did not finish (%s); a few hundred points are expected" % (
+                ns, method, " + appended layer" if args.get("append") else "", type(e).__name__)
     rules = [_quad(k, 0.0, 1.0, method) for k in ns]
     want = []
     for idx in itertools.product(*[range(k) for k in ns]):
@@ -86,14 +116,14 @@ def oracle_stack(args):
     tot = float(sum(wgt for _p, wgt in pw))
     if not close(tot, 1.0, 1.0, rtol=1e-11):
         problems.append("flattened weights sum to %r" % tot)
-    if sizes != ns:
+    if sizes != ns[:len(sizes)] or len(sizes) != len(ns) - (1 if args.get("append") else 0):
         problems.append("the caller's size list was changed by the builder: %r -> %r" % (ns, sizes))
     try:
         pw2 = ss_again.unravel()
     except Exception as e:  # noqa
         pw2 = None
         problems.append("a second stack built from the same size list cannot be flattened (%s)" % type(e).__name__)
-    if pw2 is not None and [(tuple(float(t) for t in p), float(w_)) for p, w_ in pw2] != [(tuple(float(t) for t in p), float(w_)) for p, w_ in pw]:
+    if pw2 is not None and not args.get("append") and [(tuple(float(t) for t in p), float(w_)) for p, w_ in pw2] != [(tuple(float(t) for t in p), float(w_)) for p, w_ in pw]:
         problems.append("a second stack built from the same size list differs from the first (%d vs %d points)" % (len(pw2), len(pw)))
     return not problems, {"npoints": len(pw), "total": tot, "problems": problems[:2]}, {"total": 1.0}, \
         "from_quadrature(%r,%s): %s" % (ns, method, "; ".join(problems[:2]) or "ok")
@@ -267,14 +297,21 @@ def run(ctx):
         pass
 
     # spawn stacks: tensor products
-    for i in range(ctx.budget(24, 400)):
+    for i in range(ctx.budget(40, 400)):
         depth = int(rng.integers(1, 5))
         method = METHODS[i % 5]
         nsamp = [int(v) for v in rng.integers(2, 6 if depth > 2 else 8, size=depth)]
         if method == "simpson":
             nsamp = [v | 1 for v in nsamp]
-        ok, obs, req, text = oracle_stack({"nsamples": nsamp, "method": method})
-        ctx.case(("stack", method, depth, tuple(nsamp)))
+        a = {"nsamples": nsamp, "method": method}
+        if i % 4 == 1:
+            a["via_batch"] = True                   # sizes and rule handed to the batch driver as options
+            ctx.count("stack:via_batch_options")
+        if i % 4 == 2 or (i % 4 == 3 and depth >= 3):
+            a["append"] = (int(rng.integers(2, 4)) | 1) if method == "simpson" else int(rng.integers(2, 4))   # a layer appended afterwards
+            ctx.count("stack:layer_appended")
+        ok, obs, req, text = oracle_stack(a)
+        ctx.case(("stack", method, depth, tuple(nsamp), bool(a.get("via_batch")), bool(a.get("append"))))
         ctx.count("stack_depth:%d" % depth)
         if not ok:
-            ctx.oracle_fail("stack-tensor:" + method, "stack", {"nsamples": nsamp, "method": method}, obs, req, text)
+            ctx.oracle_fail("stack-tensor:" + method, "stack", a, obs, req, text)
